@@ -201,7 +201,9 @@ pub fn run(r: &mut Rec) {
     let mut rng = Rng(r.seed ^ 0xC10);
     // big operands shorter and longer than the scalars: 0, one digit (small / large), 2, 3 and 5 digits
     let mut bigs: Vec<Vec<u64>> = vec![vec![], vec![1], vec![5], vec![128], vec![0x8000], vec![1 << 31], vec![1 << 32], vec![1 << 63], vec![u64::MAX], vec![0, 1], vec![u64::MAX, u64::MAX],
-                                       vec![0, 0, 1], vec![0, 1 << 63]];
+                                       vec![0, 0, 1], vec![0, 1 << 63],
+                                       // all ones over three and four digits: a scalar's carry has to leave through the top
+                                       vec![u64::MAX, u64::MAX, u64::MAX], vec![u64::MAX - 1, u64::MAX, u64::MAX, u64::MAX]];
     for len in [1usize, 2, 3, 5] {
         for _ in 0..(if r.thorough { 4 } else { 1 }) {
             bigs.push(digits_p(&mut rng, len, &[Pat::Random, Pat::Ones, Pat::Landmark]));
